@@ -20,7 +20,7 @@ from typing import Any, Dict, List, Optional, Tuple
 import sympy as sp
 
 from ..algebra import local_param_env, HBAR, SymEval, Untranslatable, dagger, is_zero, residual_text, to_matrix, normal_form
-from ..index import ClassInfo, FuncInfo, get_index, dotted, norm, calls_in
+from ..index import ClassInfo, FuncInfo, get_index, dotted, norm, calls_in, walk_no_nested
 from ..registry import get_registry
 from ..report import Context, AnalysisError
 from ..texmatrix import TexUnreadable, documented_matrices, read_matrix
@@ -277,6 +277,7 @@ def run(ctx: Context) -> None:
 
     clause_e(ctx, idx)
     clause_f(ctx, idx, reg)
+    clause_g(ctx, idx, reg)
 
     # ---------------- (d) exhaustiveness ------------------------------------------------------------------------------------
     n_reg = 0
@@ -515,3 +516,58 @@ def clause_f(ctx: Context, idx, reg) -> None:
     ctx.require_floor("gate steps and helpers followed for mode order", n_funcs, 40)
     ctx.obligation("C07f", "gate steps|requested mode order reaches the block indices",
                    not any(f.rule == "C07f" for f in ctx.findings[before:]), functions=n_funcs, uses=n_uses)
+
+
+def clause_g(ctx: Context, idx, reg) -> None:
+    """Ownership of the second moments in the Gaussian simulator: the steps registered for instructions never assign `_C` / `_G` themselves -
+    they go through the update helpers, which write the block of the addressed modes *and* its cross blocks with the other modes (C07e
+    proves those helpers) - and write `_m` only additively (a displacement).  A helper that writes one of C, G writes the other too."""
+    ctx.rule("C07g", "in the Gaussian simulator only the update helpers assign the second moments C and G (always both); the registered steps never do, "
+                     "and they change the first moment m only additively")
+    gs = idx.module("piquasso._simulators.gaussian.simulation_steps")
+    steps = set()
+    for s_ in reg.simulators:
+        for st in s_.steps():
+            if st.module is gs:
+                steps.add(st.qualname)
+
+    def writes(fn) -> Dict[str, List[ast.AST]]:
+        out: Dict[str, List[ast.AST]] = {}
+        for a in walk_no_nested(fn.node):
+            if isinstance(a, (ast.Assign, ast.AugAssign)):
+                for tg in (a.targets if isinstance(a, ast.Assign) else [a.target]):
+                    b = tg
+                    while isinstance(b, ast.Subscript):
+                        b = b.value
+                    if isinstance(b, ast.Attribute) and b.attr in ("_m", "_C", "_G"):
+                        out.setdefault(b.attr, []).append(a)
+        return out
+
+    n_writers = 0
+    for fn in gs.functions.values():
+        w = writes(fn)
+        if not w:
+            continue
+        n_writers += 1
+        key = f"{fn.qualname}|writes {'+'.join(sorted(w))}"
+        is_step = fn.qualname in steps
+        bad = None
+        if is_step and ("_C" in w or "_G" in w):
+            bad = (w.get("_G") or w.get("_C"))[0], ("a registered step assigns a second moment itself instead of going through the update helpers: the "
+                                                     "cross-correlations with the modes it does not address are not updated")
+        elif ("_C" in w) != ("_G" in w):
+            only = "_C" if "_C" in w else "_G"
+            bad = w[only][0], f"writes {only} but not the other second moment: a transformation of the addressed modes changes both"
+        elif is_step and "_m" in w:
+            for a in w["_m"]:
+                v = a.value
+                if isinstance(v, ast.Call) and (dotted(v.func) or "").split(".")[-1] == "assign" and len(v.args) == 3:
+                    v = v.args[2]
+                additive = isinstance(a, ast.AugAssign) and isinstance(a.op, (ast.Add, ast.Sub)) or (
+                    isinstance(v, ast.BinOp) and isinstance(v.op, (ast.Add, ast.Sub)) and any(isinstance(x, ast.Attribute) and x.attr == "_m" for x in ast.walk(v)))
+                if not additive:
+                    bad = a, "a registered step rescales / replaces the first moment itself: a linear transformation of m comes with one of C and G"
+        ctx.obligation("C07g", key, bad is None, f"{ctx.relpath(fn.file)}:{fn.line}", step=is_step)
+        if bad is not None:
+            ctx.violation("C07g", key, fn.file, bad[0].lineno, f"{fn.name}: {bad[1]}", norm(bad[0])[:120])
+    ctx.require_floor("C07g functions of the Gaussian steps that assign a moment", n_writers, 6)
